@@ -40,7 +40,7 @@ TOOLS = os.path.join(core.VERIF, "tools")
 EXTRACT = os.path.join(TOOLS, "extract_num.py")
 HARNESS = os.path.join(TOOLS, "num_harness.py")
 KNOWN_PATH = os.path.join(core.VERIF, "known_findings_c18.json")
-WORK = os.path.join(core.CACHE, "c18")
+WORK = os.path.join(core.CACHE, "c18" + core.SLOT)
 PY312 = {"PYENV_VERSION": "3.12.1"}
 
 # (pairs, shards): the shard count is part of the input definition (seed of shard k = seed*1000+k),
